@@ -152,6 +152,19 @@ theorem follow_create {l : Loader} (hl : Consistent l) {fromF toF : Frag} {b : E
     (h : createLink fromF toF b = .ok s) : followLink l s = .ok b :=
   followLink_created hl hf hb hwf h
 
+/-- **A link text names one element.** In a consistent loader two targets that receive the same link text
+(from whatever referrers, in whatever files) are the same element: no two distinct elements are ever confused by
+what the library writes. -/
+theorem created_link_identifies_target {l : Loader} (hl : Consistent l)
+    {fromF toF fromF' toF' : Frag} {b b' : El}
+    (hf : toF ∈ l.trees) (hb : b ∈ toF.elems) (hwf : WFEl toF.kind b)
+    (hf' : toF' ∈ l.trees) (hb' : b' ∈ toF'.elems) (hwf' : WFEl toF'.kind b') {s : Str}
+    (h : createLink fromF toF b = .ok s) (h' : createLink fromF' toF' b' = .ok s) : b = b' := by
+  have h1 := follow_create hl hf hb hwf h
+  have h2 := follow_create hl hf' hb' hwf' h'
+  rw [h1] at h2
+  exact Except.ok.inj h2
+
 /-- `split_links` of the space-joined texts that `__set_links` writes returns those texts, in
 order, for any number of targets and any mix of link forms. -/
 theorem split_join {l : Loader} (hl : Consistent l) (fromF : Frag)
